@@ -533,7 +533,7 @@ pub fn apply_op(op: &Op, top: bool) {
         Op::Probe => {
             audit(!top);
         }
-        Op::TryUnwrap(_) | Op::MakeMut(_) | Op::GetMut(_) | Op::IntoRaw(_) | Op::FromRaw(_) | Op::IncStrong(_) | Op::DecStrong(_) | Op::DropLoose(_) => {
+        Op::TryUnwrap(_) | Op::MakeMut(_) | Op::GetMut(_) | Op::IntoRaw(_) | Op::FromRaw(_) | Op::IncStrong(_) | Op::DecStrong(_) | Op::DropLoose(_) | Op::WeakIntoRaw(_) | Op::WeakFromRaw(_) => {
             if top && (mode == Mode::Consume || mode == Mode::NoAdopt || mode == Mode::Elide) {
                 crate::consume::apply(op);
             } else {
@@ -640,7 +640,7 @@ pub fn run_dacts(node: &mut Node, ds: &[DAct]) {
         let before = model_fingerprint();
         match d {
             DAct::Do(op) => match **op {
-                Op::TryUnwrap(_) | Op::MakeMut(_) | Op::GetMut(_) | Op::IntoRaw(_) | Op::FromRaw(_) | Op::IncStrong(_) | Op::DecStrong(_) | Op::DropLoose(_) => {}
+                Op::TryUnwrap(_) | Op::MakeMut(_) | Op::GetMut(_) | Op::IntoRaw(_) | Op::FromRaw(_) | Op::IncStrong(_) | Op::DecStrong(_) | Op::DropLoose(_) | Op::WeakIntoRaw(_) | Op::WeakFromRaw(_) => {}
                 _ => apply_op(op, false),
             },
             DAct::Observe => {
